@@ -10,6 +10,7 @@ import (
 	"crypto/sha256"
 	"encoding/json"
 	"fmt"
+	"math/big"
 	"os"
 	"os/exec"
 	"path/filepath"
@@ -262,6 +263,18 @@ func c17Ops(c *h.Ctx) []c17Op {
 			}
 			return r
 		}},
+		// a key assembled from its components (N, E, D, primes) with nothing precomputed: the issuer must still only READ it
+		{"type2.Evaluate (key without precomputed values)", func() any {
+			bare := &rsa.PrivateKey{PublicKey: rsa.PublicKey{N: new(big.Int).Set(key2.N), E: key2.E}, D: new(big.Int).Set(key2.D),
+				Primes: []*big.Int{new(big.Int).Set(key2.Primes[0]), new(big.Int).Set(key2.Primes[1])}}
+			return &t2Shared{type2.NewBasicPublicIssuer(bare)}
+		}, func(s any, i int) []byte {
+			r, err := s.(*t2Shared).iss.Evaluate(req2[k(i)])
+			if err != nil {
+				return []byte("err")
+			}
+			return r
+		}},
 		{"type3.TokenKeyID+NameKey", mk3, func(s any, i int) []byte {
 			e := s.(*t3Shared).env
 			return cat(e.issuer.TokenKeyID(), e.issuer.NameKey().Marshal())
@@ -269,6 +282,27 @@ func c17Ops(c *h.Ctx) []c17Op {
 		{"type3.Evaluate", mk3, func(s any, i int) []byte {
 			_, _, err := s.(*t3Shared).env.issuer.Evaluate(req3[k(i)])
 			return okErr(err)
+		}},
+		// a batch issuer whose list holds an issuer that REFUSES (same type and key id) before the one that serves
+		{"batched.EvaluateBatch (refusing issuer first)", func() any {
+			a := mk1().(*t1Shared).iss
+			b := type2.NewBasicPublicIssuer(key2)
+			return &batchShared{batched.NewBasicBatchedIssuer(refuser{wrap1{a}, nil}, wrap1{a}, refuser{wrap2{b}, nil}, wrap2{b}), a, b, kid1, kid2}
+		}, func(s any, i int) []byte {
+			b := s.(*batchShared)
+			br, err := batched.NewBasicClient().CreateTokenRequest([]tokens.TokenRequestWithDetails{req1[k(i)], req2[k(i)], req1[k(i+1)]})
+			if err != nil {
+				return []byte("client-err")
+			}
+			out, err := b.iss.EvaluateBatch(br)
+			if err != nil {
+				return []byte("err")
+			}
+			l, err := batched.UnmarshalBatchedTokenResponses(out)
+			if err != nil || len(l) != 3 || len(l[0]) != 145 || !bytes.Equal(l[1], resp2[k(i)]) || len(l[2]) != 145 {
+				return []byte("bad-response")
+			}
+			return []byte("ok")
 		}},
 		{"batched.EvaluateBatch", mkBatch, func(s any, i int) []byte {
 			b := s.(*batchShared)
